@@ -662,6 +662,38 @@ def reg_assumptions(reg, results):
         for q in d.get('used', []):
             if q.startswith('<skipped-at-call>'):
                 continue
+            if q.startswith('<ext> '):
+                from .ext import EXT_ASSUMPTIONS
+                key = q[6:]
+                txt = EXT_ASSUMPTIONS.get(key) or EXT_ASSUMPTIONS.get(key.split('.')[0] + '.wait')
+                out.append([f'ASSUMED external contract ({key}): {txt or "no effect on the data"}'])
+                continue
+            if q.startswith('<model> '):
+                LIB = {
+                    'json.dumps': 'json.dumps(v) is a one-line text with json.loads(json.dumps(v)) == v '
+                                  'for JSON-able v with str keys',
+                    'random.shuffle': 'random.shuffle permutes the list (bijection between items and '
+                                      'positions)',
+                    'random.choice': 'random.choice(xs) returns an element of the non-empty xs',
+                    'copy.deepcopy': 'copy.deepcopy returns a fresh object graph equal to the original',
+                    'time.sleep': 'time.sleep has no effect on the data',
+                }
+                key = q[8:]
+                txt = LIB.get(key)
+                if key.startswith('re.'):
+                    txt = ('concrete subjects go to CPython re; structured subjects to the symbolic '
+                           'matcher of pyvc.xregex (differential self-check against re at every call)')
+                if key.startswith('numpy.'):
+                    txt = 'numpy zeros/ones/where/index stores behave as on fixed-length vectors of numbers'
+                if key.startswith('threading.') or key.startswith('queue.'):
+                    txt = 'thread / queue objects: see the external contracts'
+                out.append([f'ASSUMED library contract ({key}): {txt or "modelled in pyvc/models.py"}'])
+                continue
+            if q.startswith('<abstract> '):
+                out.append([f'{q[11:]} is used abstractly in {d["name"]} on messages about which '
+                            f'nothing is known: it may raise or return a value that is a function '
+                            f'of its arguments (its round-trip contract is proved as its own unit)'])
+                continue
             if q.startswith('<lemma>'):
                 out.append([f'TRUSTED mathematical lemma used by the evaluator in {d["name"]}: '
                             f'{q[8:]}'])
